@@ -20,8 +20,8 @@ claimed = {
 }
 notes = {
  "C01": "trusted: the harness's own record parser and the 160-line reference model (unit-tested); blob attribution is observed from the I/O tap, never predicted",
- "C02": "as C01",
- "C04": "as C01; which blob is active is observed through has_active_blob/records_count_detailed at quiescent points",
+ "C02": "as C01; a share of restart histories with more than ten blobs (two-digit ids) for the order of equal-timestamp versions across blobs after a reopen; one run in about fifty carries a 70 000-byte metadata value",
+ "C04": "as C01; which blob is active is observed through has_active_blob/records_count_detailed at quiescent points; profile seq-maint+opreadfault fails exactly one read that is not one of the checker's own queries (index load of a restore or of a delete into a dumped blob, dump, background work) with EIO: the operation hit may fail, no answer may change",
  "C03": "as C01; a share of the runs are concurrent histories reopened with indexes removed, and crash-kill histories for the id clause (rule C07.id-reuse counts for C03 and C07); index damage is applied by the harness between close and init, the truncation sweep is capped at 40 lengths per history in the quick tier and covers every byte length in the thorough tier's restart-sweep-full runs",
  "C05": "as C01; CRC32C detects every burst of <= 32 bits, so 'altered bytes never served' is an exact oracle; flips in header/meta classes only assert that no altered data bytes are returned",
  "C06": "profiles beyond the single crash: crash-conc (concurrent clients cut by a kill, closures interleaved at I/O-call granularity), crash-double (kill, then power loss in the recovery session), crash-power-index (power lost while a multi-block index file is dumped; one 4 KiB block of the un-synced writes is lost while later ones survive); a blob accepted by recovery must be accepted by every later start after a clean close; an index file that is complete in the surviving image implies that every blob byte it describes survived; crash model stated in the evidence assumptions (kill = partial write at one event, power loss = synced prefix + cut/torn un-synced tail per file, durable directory entries); real SIGKILL of a child process is not used because its timing is not replayable",
@@ -29,10 +29,10 @@ notes = {
  "C14": "the dropped future's blocking closures are simulated jobs that still run (same contract as spawn_blocking); after half of the drops the next operation starts at once (no queries, no think time) and in a third of the runs closures are preemptible at every file operation, so the detached closure and the next operation's closure overlap",
  "C07": "trusted: the tap sees every write pearl issues through crate::io::File; directory operations (rename into corrupted/, index removal) are observed by snapshots at session boundaries",
  "C08": "interleaving granularity = await points + yield points (incl. before every storage-level and blob-level lock acquisition); in a quarter of the conc runs blocking closures run on their own threads and hand control back at every file operation (hook H8), otherwise two closures never overlap inside their bodies; the async-lock mutex reads the real clock for its fairness mode (only affects which waiter is woken first); a busy-wait detector replaces idle-based time advance when tasks spin",
- "C13": "a share of concurrent runs (conc, conc-burst): a wedge between clients and the worker counts as lost liveness; a session watchdog turns a storage call that never returns into a deadlock verdict instead of a hung run; bounds are in simulated time and apply only without disk stalls; the wall clock is simulated (jumps of +-1 s and +-1 h)",
+ "C13": "profile live+closerace calls close() at once behind writes, a close of the active blob and background requests that can or cannot apply (requests queued, index dumps in flight, possibly no active blob), profile live+slowdump runs on a steadily slow disk (0..80 simulated ms per file operation, no stall) so that one dump pass over several closed blobs spans several 200 ms dump quanta; a share of concurrent runs (conc, conc-burst): a wedge between clients and the worker counts as lost liveness; a session watchdog turns a storage call that never returns into a deadlock verdict instead of a hung run; bounds are in simulated time and apply only without disk stalls; the wall clock is simulated (jumps of +-1 s and +-1 h)",
  "C16": "a panic inside a tool is caught and reported (rule tool-panic); a refused blob must not leave an invalid output file; weakest fit for the technique: no scheduling component; the tools run outside the simulator on a plain thread, the storage-on-output oracle in a small runtime of its own",
- "C10": "as C01; profile seq-filter+readfault fails reads of index files with EIO (a query may fail, never answer absent for a stored key); a third of the seq-filter runs reopen the storage under a second bloom configuration; filters are only exercised through the storage (the bare Bloom/RangeFilter API is a pure function)",
- "C12": "clean-after-close is checked at the return of try_close_active_blob in sequential and concurrent sessions (the blob the call synced, records of writes only); trusted: the tap's notion of synced length (content length at the last successful sync_all of that file)",
+ "C10": "as C01; profile seq-filter+readfault fails reads of index files with EIO (a query may fail, never answer absent for a stored key); a third of the seq-filter runs reopen the storage under a second bloom configuration, which in a third of those is no bloom filter at all (placeholder filters of bloom-less openings meet bloom-enabled ones); filters are only exercised through the storage (the bare Bloom/RangeFilter API is a pure function)",
+ "C12": "explicit fsyncdata is also judged with concurrent clients (profile conc+fsync: clients sync while writes keep crossing a tiny limit, so explicit syncs meet background syncs in flight): every record acknowledged before the call must lie below the synced length when it returns Ok, provided the same blob is observed active before and after; clean-after-close is checked at the return of try_close_active_blob in sequential and concurrent sessions (the blob the call synced, records of writes only); trusted: the tap's notion of synced length (content length at the last successful sync_all of that file)",
  "C15": "as C01; accounting is compared at quiescent points only, including the quiescent end of concurrent sessions (a blob under creation by the worker exists on disk before it is attached)",
 }
 not_applicable = [
